@@ -8,6 +8,9 @@ mod impls;
 mod ops;
 mod source_loader;
 
+#[cfg(feature = "verif")]
+mod verif;
+
 use crate::{
   byte_code::ByteCode,
   cache::InlineCache,
@@ -337,6 +340,9 @@ impl Vm {
   fn execute(&mut self, mode: ExecutionMode) -> ExecutionResult {
     unsafe {
       loop {
+        #[cfg(feature = "verif")]
+        self.verif_pre_op();
+
         // get the current instruction
         let op_code: ByteCode = ByteCode::from_byte_unchecked(self.read_byte());
 
@@ -437,6 +443,9 @@ impl Vm {
           ExecutionSignal::ContextSwitch => match self.fiber_queue.pop_front() {
             Some(fiber) => self.context_switch(fiber),
             None => {
+              #[cfg(feature = "verif")]
+              self.verif_deadlock();
+
               let mut stdio = self.io().stdio();
               let stderr = stdio.stderr();
               writeln!(stderr, "Fatal error deadlock.").expect("Unable to write to stderr");
